@@ -7,3 +7,5 @@ git -C /repo apply "$patch" || { echo "cannot apply"; exit 2; }
 (cd /repo && GOFLAGS=-mod=mod GOPROXY=off GOSUMDB=off GOTOOLCHAIN=local go build ./... ) || echo "BUILD FAILS"
 for p in "$@"; do (cd /verif && ./check $p | tail -2); done
 git -C /repo checkout -- .
+# the runs above rewrote evidence/ from a MODIFIED tree: put the committed (clean-tree) evidence back
+git -C /verif checkout -- evidence
